@@ -180,8 +180,10 @@ func runC13(e *Env) {
 					e.Violate("active-before-reads", "channel", "channel %d: a read was delivered (@%d) before the active event completed (@%d)", i, rd.Seq, act[0].End)
 				}
 			}
-		} else if len(act) > 1 {
-			e.Violate("active-once", "channel", "channel %d: active delivered %d times", i, len(act))
+		} else {
+			// every channel the bootstrap served (Connect returned it / the accept loop handed it out) was activated
+			// exactly once, however Shutdown overlapped its set-up
+			e.Violate("active-once", fmt.Sprintf("count=%d", len(act)), "channel %d: active delivered %d times although the channel was served", i, len(act))
 		}
 		a, in := p.Count("active"), p.Count("inactive")
 		if in > 1 || (a == 1 && in != 1) {
